@@ -171,6 +171,15 @@ def gen_case(rng, method=None, small=False, beyond=False, allow_bands=True, quar
         disp = gen_grid(rng, rows, cols, a, b)
     else:
         disp = {"kind": "scalar", "min": a, "max": b}
+    # a right dataset carrying its own, constant, interval next to a per-pixel left grid (the two cost volumes are
+    # allocated by the same matching-cost object before either is computed)
+    right_disp = None
+    force_right = False
+    if disp["kind"] == "grid" and rng.random() < 0.5:
+        lo_r = -max(max(r) for r in disp["max"])
+        hi_r = -min(min(r) for r in disp["min"])
+        right_disp = {"kind": "scalar", "min": lo_r, "max": max(hi_r, lo_r)}
+        force_right = True
     return {
         "rows": rows,
         "cols": cols,
@@ -183,13 +192,13 @@ def gen_case(rng, method=None, small=False, beyond=False, allow_bands=True, quar
         "left_msk": gen_mask(rng, rows, cols) if rng.random() < 0.45 else None,
         "right_msk": gen_mask(rng, rows, cols) if rng.random() < 0.45 else None,
         "disp": disp,
-        "right_disp": None,
+        "right_disp": right_disp,
         "method": method,
         "window": window,
         "subpix": subpix,
         "row0": rng.choice([0, 0, 0, 3, 17]),
         "col0": rng.choice([0, 0, 0, 5, 11]),
-        "right": rng.random() < 0.35,
+        "right": force_right or rng.random() < 0.35,
     }
 
 
